@@ -4,7 +4,8 @@ Enumerated (no sampling): every weakly connected layer hierarchy with <= N layer
 whose PARENT-REFs ODX allows (refinherit.ALLOWED_PARENTS), one representative per isomorphism class  x  every
 placement of 1..2 short names (per layer: absent / defined locally / referenced from a library layer with
 DIAG-COMM-REF + DIAG-VARIABLE-REF / defined locally as a UNIT-GROUP whose content is the same in every layer, i.e.
-value-equal but distinct objects, which must not count as a clash)  x  every NOT-INHERITED set over the (PARENT-REF, name) pairs the parent
+value-equal but distinct objects, which must not count as a clash / defined locally with the short names of the
+service and the single-ECU job swapped, so that jobs override inherited services of the same name and vice versa)  x  every NOT-INHERITED set over the (PARENT-REF, name) pairs the parent
 really offers.  Each placement is instantiated at once in all categories that use the mechanism (services,
 single-ECU jobs, DOPs, structures, tables, global negative responses, diag variables, functional classes,
 state charts, additional audiences, unit groups; in the small spaces also the other eight kinds of data objects
@@ -17,6 +18,10 @@ loading raises OdxError iff an equal-priority clash between different objects st
 layer.decode(request of a service) finds exactly that service iff it is visible; a parent's observation is the
 same in the database without the child.  Three-valued where the standard is read in two ways: rank of
 ECU-SHARED-DATA relative to the other parent types, and diag variables handed through PROTOCOL layers.
+
+Split-container phase: the small hierarchies are also emitted with one DIAG-LAYER-CONTAINER document per layer and
+PARENT-REFs across documents, added parents-first and children-first; each must give the model's views and what the
+single-document database shows.
 
 Re-resolution phase: for the small spaces every loaded hierarchy is refreshed again (idempotence) and then, for every
 single edit of a menu applied to the loaded object graph (drop the objects of one placement from a layer's raw
@@ -59,7 +64,7 @@ def abstract_locals(case: Dict[str, Any], referable: bool, is_var: bool, equalab
         d: Dict[int, Any] = {}
         if not (is_var and t in eh.NO_VARS):
             for ni, kind in enumerate(case["place"][i]):
-                if kind == 1:
+                if kind in (1, 4):
                     d[ni] = i
                 elif kind == 2 and referable:
                     d[ni] = "LIB"
@@ -101,6 +106,20 @@ def predict(case: Dict[str, Any], prefix: str = "") -> List[Dict[str, Any]]:
                                        opaque=prot if (cls[2] and pv == "opaque") else ())
             v, cf = memo[cls]
             for i in range(len(types)):
+                if cat in ("svc", "job"):
+                    # services and jobs share one name space: `<name>` and `<name>_j` are resolved alike, but in the
+                    # layers that swap the kinds (placement 4) `<name>` is the job and `<name>_j` the service
+                    other = "job" if cat == "svc" else "svc"
+                    row = []
+                    for ni, o in v[i].items():
+                        if isinstance(o, ri.Conflict):
+                            continue
+                        if isinstance(o, int) and case["place"][o][ni] == 4:
+                            row.append((eh.short_name(other, nms[ni]), eh.marker(lnames[o], eh.SWAPPED[cat], nms[ni])))
+                        else:
+                            row.append((eh.short_name(cat, nms[ni]), eh.marker(lib if o == "LIB" else lnames[o], cat, nms[ni])))
+                    views[i][cat] = sorted(row)
+                    continue
                 views[i][cat] = sorted((eh.short_name(cat, nms[ni]),
                                         eh.marker(lib if o == "LIB" else eh.EQ if o == "EQ" else lnames[o], cat, nms[ni]))
                                        for ni, o in v[i].items() if not isinstance(o, ri.Conflict))
@@ -267,6 +286,8 @@ def service_objects(case: Dict[str, Any], lnames: List[str], lib: str) -> List[T
         for i in range(len(case["types"])):
             if case["place"][i][ni] == 1:
                 out.append((eh.marker(lnames[i], "svc", nm), eh.request_bytes(ni, i)))
+            elif case["place"][i][ni] == 4:
+                out.append((eh.marker(lnames[i], eh.SWAPPED["svc"], nm), eh.request_bytes(ni, i, swapped=True)))
         if any(row[ni] == 2 for row in case["place"]):
             out.append((eh.marker(lib, "svc", nm), eh.request_bytes(ni, 0xEE)))
     return out
@@ -308,6 +329,8 @@ def classify_diffs(case: Dict[str, Any], pred: Dict[str, Any], obs: List[Dict[st
 
                 governed = eh.CATEGORIES[cat][1]
                 base = sn[:-len(eh.CATEGORIES[cat][0])] if eh.CATEGORIES[cat][0] else sn
+                if cat in ("svc", "job"):
+                    base = sn[:-2] if sn.endswith("_j") else sn
                 excl_here = any(c == i and case["names"][n] == base for c, p, n in case.get("excl", []))
                 applies = excl_here and governed in case.get("excl_lists", eh.EXCL_LISTS)
                 if sn not in g:
@@ -469,7 +492,8 @@ def exclusion_sets(parents: Sequence[Sequence[int]], place: Sequence[Sequence[in
 
 
 def configurations(types: Sequence[str], parents: Sequence[Sequence[int]], k: int, kinds: Tuple[int, ...] = (0, 1, 2),
-                   skew: bool = True, full: bool = False, max_excl: Optional[int] = None) -> Iterator[Dict[str, Any]]:
+                   skew: bool = True, full: bool = False, max_excl: Optional[int] = None,
+                   require: Optional[int] = None) -> Iterator[Dict[str, Any]]:
     """All cases over one hierarchy with k names (see module docstring); names are interchangeable, so of two
     cases that differ only by swapping the names one is kept."""
     n = len(types)
@@ -480,13 +504,16 @@ def configurations(types: Sequence[str], parents: Sequence[Sequence[int]], k: in
         cols = [tuple(place[i][nm] for i in range(n)) for nm in range(k)]
         if any(not any(c) for c in cols):
             continue
+        if require is not None and not any(require in c for c in cols):
+            continue  # (a space that only adds the placements containing one kind to another space)
         has_ref = any(2 in c for c in cols)
         if any(3 in c for c in cols):
             # value-equal unit groups: only the unit groups are instantiated (no NOT-INHERITED list governs them)
             if not has_ref and not (k == 2 and cols[0] > cols[1]):
                 yield dict(base, place=place, excl=[], excl_lists=list(eh.EXCL_LISTS), cats=list(eh.EQUALABLE_CATS))
             continue
-        clash = None if has_ref else plain_clash(dict(base, place=place))
+        has_swap = any(4 in c for c in cols)
+        clash = None if (has_ref or has_swap) else plain_clash(dict(base, place=place))
         for excl in exclusion_sets(parents, place, k, max_excl):
             if k == 2:
                 ka = (cols[0], sorted((c, p) for c, p, nm in excl if nm == 0))
@@ -494,7 +521,9 @@ def configurations(types: Sequence[str], parents: Sequence[Sequence[int]], k: in
                 if ka > kb:
                     continue
             case = dict(base, place=place, excl=excl, excl_lists=list(eh.EXCL_LISTS))
-            if has_ref:
+            if has_ref or has_swap:
+                # (library references exist for services, jobs and variables only; swapping the short names of
+                # service and job concerns these two kinds only -- the other categories would just repeat kind 1)
                 case["cats"] = list(eh.REFERABLE_CATS)
                 yield case
                 continue
@@ -520,7 +549,8 @@ def configurations(types: Sequence[str], parents: Sequence[Sequence[int]], k: in
 # work units
 # ---------------------------------------------------------------------------------------------
 def explore_unit(unit: Tuple[Any, ...]) -> Part:
-    types, parents, k, kinds, skew, full, max_excl, shard, nshards = unit
+    types, parents, k, kinds, skew, full, max_excl, shard, nshards = unit[:9]
+    require = unit[9] if len(unit) > 9 else None
     part = Part()
     loader = Loader()
     try:
@@ -541,6 +571,12 @@ def explore_unit(unit: Tuple[Any, ...]) -> Part:
             part.add("layer_counts", len(case["types"]))
             for c in case["cats"]:
                 part.add("categories", c)
+            if outcome == "loaded":
+                for i, ps in enumerate(case["parents"]):
+                    for p_ in ps:
+                        for ni in range(len(case["names"])):
+                            if {case["place"][i][ni], case["place"][p_][ni]} == {1, 4}:
+                                part.count("cross_kind_overrides")
             if any(3 in row for row in case["place"]):
                 part.count("cases_with_value_equal_objects")
                 for i, ps in enumerate(case["parents"]):
@@ -601,7 +637,7 @@ def explore_unit(unit: Tuple[Any, ...]) -> Part:
             batch.clear()
 
         idx = 0
-        for case in configurations(types, parents, k, kinds, skew, full, max_excl):
+        for case in configurations(types, parents, k, kinds, skew, full, max_excl, require):
             idx += 1
             if idx % nshards != shard:
                 continue
@@ -864,11 +900,11 @@ def refresh_problems(loader: Loader, case: Dict[str, Any], edits: List[List[Any]
 
 
 def refresh_unit(unit: Tuple[Any, ...]) -> Part:
-    types, parents, k, kinds, full, differential = unit
+    types, parents, k, kinds, full, differential, require = unit
     part = Part()
     loader = Loader()
     try:
-        for case in configurations(types, parents, k, kinds, False, full):
+        for case in configurations(types, parents, k, kinds, False, full, None, require):
             edits = [["none"]] + edit_menu(case)
             found = refresh_problems(loader, case, edits, part, differential)
             part.count("refresh_cases")
@@ -892,6 +928,65 @@ def refresh_unit(unit: Tuple[Any, ...]) -> Part:
 
 
 # ---------------------------------------------------------------------------------------------
+# one DIAG-LAYER-CONTAINER document per layer, PARENT-REFs across documents, both document orders
+# ---------------------------------------------------------------------------------------------
+ORDERS = {"parents-first": False, "children-first": True}
+
+
+def split_problems(loader: Loader, case: Dict[str, Any], orders: List[str], part: Optional[Part]) -> List[Tuple[str, str, str]]:
+    """-> [(order, key, detail)]: the hierarchy spread over one document per layer must give what the model says
+    and what the single-document database shows, whatever the order in which the documents are added."""
+    preds = predict(case)
+    n = len(case["types"])
+    reference = None
+    if not any(p["conflicts"] for p in preds):
+        try:
+            reference = full_observation(loader.load([case]), case, "", list(range(n)))
+        except Exception:  # noqa -- business of the main phase
+            reference = None
+    out: List[Tuple[str, str, str]] = []
+    for order in orders:
+        files = dict(eh.split_files(case, ORDERS[order]))
+        tag = f"C09/split-containers/{order}/"
+        try:
+            db = loader.load_files(files)
+        except Exception as e:  # noqa
+            probs = judge_error(case, preds, e, "")
+            outcome = "error"
+        else:
+            probs = judge_loaded(case, preds, db, "", None)
+            outcome = "loaded"
+            if not probs and reference is not None:
+                seen = full_observation(db, case, "", list(range(n)))
+                for i in range(n):
+                    if seen[i] != reference[i]:
+                        cat = next(c for c in seen[i] if seen[i][c] != reference[i][c])
+                        probs.append((f"C09/differs-from-single-container/{cat}",
+                                      f"layer {i} ({case['types'][i]}) shows {seen[i][cat]}, in one container {reference[i][cat]}"))
+                        break
+        for key, detail in probs:
+            out.append((order, tag + "/".join(key[len("C09/"):].split("/")[:3]), f"documents {order}: {detail}"))
+        if part is not None:
+            part.count("split_container_evaluations")
+            part.count("split_container_" + outcome)
+            part.add("split_orders", order)
+    return out
+
+
+def split_unit(unit: Tuple[Any, ...]) -> Part:
+    types, parents, k, kinds = unit
+    part = Part()
+    loader = Loader()
+    try:
+        for case in configurations(types, parents, k, kinds, False, False):
+            for order, key, detail in split_problems(loader, case, list(ORDERS), part):
+                part.violation(key, {"mode": "split", "case": case, "order": order}, detail)
+    finally:
+        loader.close()
+    return part
+
+
+# ---------------------------------------------------------------------------------------------
 def is_chain_or_diamond(types: Sequence[str], parents: Sequence[Sequence[int]]) -> bool:
     """5-layer shapes kept in the thorough tier: the full chain through all five types and hierarchies with a
     single childless layer in which every layer has at most two parents and some layer is reached on two paths."""
@@ -904,23 +999,32 @@ def is_chain_or_diamond(types: Sequence[str], parents: Sequence[Sequence[int]]) 
     return "diamond" in tags or all(len(ps) <= 1 for ps in parents)
 
 
-def plan(quick: bool) -> Tuple[List[Tuple[Any, ...]], List[Tuple[Any, ...]], List[Tuple[Any, ...]], Dict[str, Any]]:
+def plan(quick: bool) -> Tuple[List[Tuple[Any, ...]], List[Tuple[Any, ...]], List[Tuple[Any, ...]], List[Tuple[Any, ...]], Dict[str, Any]]:
     units: List[Tuple[Any, ...]] = []
     punits: List[Tuple[Any, ...]] = []
     runits: List[Tuple[Any, ...]] = []
+    sunits: List[Tuple[Any, ...]] = []
     bounds: Dict[str, Any] = {}
+    # xspaces: (n, k, kinds, required kind, max exclusions, shards) -- only the placements containing the required kind
+    # rspaces: (n, k, kinds, 19 categories?, compare with a fresh load?, required kind)
     if quick:
         spaces = [(1, 2, (0, 1, 2, 3), True, True, 1), (2, 2, (0, 1, 2, 3), True, True, 1), (3, 1, (0, 1, 2, 3), True, True, 2),
                   (3, 2, (0, 1), False, False, 4), (4, 1, (0, 1), False, False, 2)]
+        xspaces = [(1, 2, (0, 1, 4), 4, None, 1), (2, 2, (0, 1, 4), 4, None, 1), (3, 1, (0, 1, 4), 4, None, 1)]
         pspaces = [(2, 1, (0, 1)), (3, 1, (0, 1))]
-        rspaces = [(1, 2, (0, 1, 2, 3), True, True), (2, 2, (0, 1, 2, 3), True, True), (3, 1, (0, 1, 3), False, False)]
+        rspaces = [(1, 2, (0, 1, 2, 3), True, True, None), (2, 2, (0, 1, 2, 3), True, True, None), (3, 1, (0, 1, 3), False, False, None),
+                   (2, 2, (0, 1, 4), False, True, 4)]
+        sspaces = [(2, 1, (0, 1, 4)), (3, 1, (0, 1))]
     else:
         spaces = [(1, 2, (0, 1, 2, 3), True, True, 1), (2, 2, (0, 1, 2, 3), True, True, 1), (3, 1, (0, 1, 2, 3), True, True, 2),
                   (3, 2, (0, 1, 2), True, False, 16), (4, 1, (0, 1, 2, 3), False, False, 4), (4, 2, (0, 1), False, False, 0),
                   (5, 1, (0, 1), False, False, 4)]
+        xspaces = [(1, 2, (0, 1, 4), 4, None, 1), (2, 2, (0, 1, 2, 4), 4, None, 1), (3, 1, (0, 1, 2, 4), 4, None, 1),
+                   (4, 1, (0, 1, 4), 4, 1, 2)]
         pspaces = [(2, 2, (0, 1, 2)), (3, 1, (0, 1, 2, 3)), (4, 1, (0, 1))]
-        rspaces = [(1, 2, (0, 1, 2, 3), True, True), (2, 2, (0, 1, 2, 3), True, True), (3, 1, (0, 1, 2, 3), True, True),
-                   (3, 2, (0, 1), False, True)]
+        rspaces = [(1, 2, (0, 1, 2, 3), True, True, None), (2, 2, (0, 1, 2, 3), True, True, None), (3, 1, (0, 1, 2, 3), True, True, None),
+                   (3, 2, (0, 1), False, True, None), (2, 2, (0, 1, 4), False, True, 4)]
+        sspaces = [(2, 2, (0, 1, 3, 4)), (3, 1, (0, 1, 3, 4))]
     desc = []
     for n, k, kinds, skew, full, nsh in spaces:
         hs = ri.hierarchies(n)
@@ -941,28 +1045,40 @@ def plan(quick: bool) -> Tuple[List[Tuple[Any, ...]], List[Tuple[Any, ...]], Lis
         for types, parents in hs:
             for sh in range(nsh):
                 units.append((types, parents, k, kinds, skew, full, mx, sh, nsh))
+    for n, k, kinds, req, mx, nsh in xspaces:
+        desc.append(f"{n} layers x {k} name(s): all hierarchies, placement kinds {list(kinds)}, only placements containing kind {req}, "
+                    f"NOT-INHERITED sets with <= {mx} entries, services/jobs/variables only")
+        for types, parents in ri.hierarchies(n):
+            for sh in range(nsh):
+                units.append((types, parents, k, kinds, False, False, mx, sh, nsh, req))
     for n, k, kinds in pspaces:
         for types, parents in ri.hierarchies(n):
             punits.append((types, parents, k, kinds))
-    for n, k, kinds, full, diff in rspaces:
+    for n, k, kinds in sspaces:
         for types, parents in ri.hierarchies(n):
-            runits.append((types, parents, k, kinds, full, diff))
+            sunits.append((types, parents, k, kinds))
+    bounds["split_container_phase"] = [f"{n} layers x {k} name(s), kinds {list(kinds)}: one document per layer, PARENT-REFs with DOCREF, "
+                                       f"documents added parents-first and children-first" for n, k, kinds in sspaces]
+    for n, k, kinds, full, diff, req in rspaces:
+        for types, parents in ri.hierarchies(n):
+            runits.append((types, parents, k, kinds, full, diff, req))
     bounds["refresh_phase"] = [f"{n} layers x {k} name(s), kinds {list(kinds)}, {'19' if full else '11'} categories: every case that "
                                f"loads x (second refresh + every single edit: remove the objects of one placement / remove one "
                                f"PARENT-REF / add one NOT-INHERITED entry), {'with' if diff else 'without'} the comparison against "
-                               f"a fresh load of the edited description" for n, k, kinds, full, diff in rspaces]
+                               f"a fresh load of the edited description" + (f", only placements containing kind {req}" if req else "")
+                               for n, k, kinds, full, diff, req in rspaces]
     bounds["spaces"] = desc
     bounds["parent_view_phase"] = [f"{n} layers x {k} name(s), kinds {list(kinds)}" for n, k, kinds in pspaces]
     bounds["allowed_parent_types"] = {k: list(v) for k, v in ri.ALLOWED_PARENTS.items()}
     bounds["categories_core"] = eh.ALL_CATS
     bounds["categories_all"] = eh.FULL_CATS
     bounds["batch"] = BATCH
-    return units, punits, runits, bounds
+    return units, punits, runits, sunits, bounds
 
 
 def run(ctx: Ctx) -> None:
     Loader.sweep()
-    units, punits, runits, bounds = plan(ctx.quick)
+    units, punits, runits, sunits, bounds = plan(ctx.quick)
     ctx.bounds = bounds
     ctx.rule = ("every hierarchy (up to renaming of layers) within the layer bound x every placement of the names x every "
                 "NOT-INHERITED set; non-trivial = distinct (hierarchy, per-layer source of every visible object, exclusions, "
@@ -981,8 +1097,10 @@ def run(ctx: Ctx) -> None:
     pmap(ctx, explore_unit, units)
     pmap(ctx, parent_unit, punits)
     pmap(ctx, refresh_unit, runits)
+    pmap(ctx, split_unit, sunits)
     c = ctx.counts
-    c["evaluations"] = c.get("evaluations", 0) + c.get("parent_view_cases", 0) + c.get("refresh_evaluations", 0)
+    c["evaluations"] = c.get("evaluations", 0) + c.get("parent_view_cases", 0) + c.get("refresh_evaluations", 0) + \
+        c.get("split_container_evaluations", 0)
     only_h = ctx.sets.pop("esd_only_highest", set())
     only_l = ctx.sets.pop("esd_only_lowest", set())
     if only_h and only_l:
@@ -1006,6 +1124,11 @@ def run(ctx: Ctx) -> None:
     ctx.guard("refresh phase: every edit kind applied, refreshes that succeed and that report a clash both seen",
               ctx.sets.get("refresh_edit_kinds", set()) == {"none", "remove-objects", "remove-parent-ref", "add-not-inherited"}
               and c.get("refresh_loaded", 0) > 0 and c.get("refresh_error", 0) > 0 and c.get("refresh_differential_comparisons", 0) > 0)
+    ctx.guard("split-container phase: both document orders loaded, successful loads and reported clashes both seen",
+              ctx.sets.get("split_orders", set()) == set(ORDERS) and c.get("split_container_loaded", 0) > 0
+              and c.get("split_container_error", 0) > 0)
+    ctx.guard("a job overriding an inherited service of the same short name (and vice versa) seen",
+              c.get("cross_kind_overrides", 0) > 0)
     ctx.guard("three-valued cases are a minority", c.get("three_valued_cases", 0) * 2 < max(1, c.get("hierarchies_loaded", 0)))
 
 
@@ -1021,6 +1144,8 @@ def replay(case: Any) -> List[Tuple[str, str]]:
             alone, _ = run_single(loader, cases[slot], None)
             keys1 = {k for k, _ in alone}
             return [("C09/batch/finding-only-in-shared-database", f"{k}: {d}") for k, d in probs if k not in keys1]
+        if case.get("mode") == "split":
+            return [(k, d) for _, k, d in split_problems(loader, case["case"], [case["order"]], None)]
         if case.get("mode") == "refresh":
             found = refresh_problems(loader, case["case"], case["edits"], None)
             if "at" in case:
